@@ -22,8 +22,10 @@ VARIABLES tid,     \* which trace of the batch
           data,    \* held values as logged after the previous event
           pdefs,   \* definitions as the code reported them after the previous event
           taint,   \* held elements computed while swallowing a callee's failure (KF1)
+          poison,  \* TRUE after known finding KF4 left the model half-updated: the rest of
+                   \* this trace can no longer be related to the definitions
           viol     \* set of <<label, event index>>
-tvars == <<tid, l, D, data, pdefs, taint, viol>>
+tvars == <<tid, l, D, data, pdefs, taint, poison, viol>>
 
 Tr     == Traces[tid]
 NEv    == Len(Tr.ev)
@@ -178,6 +180,25 @@ TaintAfter(e, D2) ==
     LET held == DOMAIN DataL(e) IN
     TaintClosure(D2, held, (taint \cup Swallowers(D, e.fx)) \cap held)
 
+\* KNOWN FINDING KF4: a structural edit (remove_bases, del_ref, del_space, del_cells,
+\* rename, ...) after which some space would derive a reference in RELATIVE mode whose
+\* target cannot be re-bound inside that space raises "Relative reference ... out of
+\* scope" in the middle of the update and leaves the model half-updated.
+UnbindableIn(DD) ==
+    \E s \in DD.sp : \E n \in ENames(DD, s, "refs") :
+        LET b == Definer(DD, s, "refs", n)
+            r == DD.refs[b][n] IN
+        /\ b # s /\ r.mode = "relative" /\ r.v[1] \in {"sp", "ce"}
+        /\ RelTarget(DD, s, b, IF r.v[1] = "ce" THEN Append(r.v[2], r.v[4]) ELSE r.v[2]) = Fail
+HalfUpdated(e) ==
+    /\ e.op # "call"
+    /\ ~Accepted(e)
+    /\ (Structural(e) \/ e.op \in {"del_ref", "set_ref"})
+    /\ Opt(e, "errtype", "") = "ValueError"
+    /\ "defs" \in DOMAIN e.post
+    /\ e.post.defs # pdefs
+    /\ LET DH == KillDangling(DAfterOK(e)) IN WellFormed(DH) /\ UnbindableIn(DH)
+
 EventViol(e, D2, ta) ==
     LET dl == DataL(e) IN
     IF e.op = "call"
@@ -218,20 +239,24 @@ TInit ==
     /\ D = DefsOf(Traces[tid].hdr.init)
     /\ data = <<>>
     /\ pdefs = Traces[tid].hdr.pdefs
-    /\ viol = {} /\ taint = {}
+    /\ viol = {} /\ taint = {} /\ poison = FALSE
     /\ TLCSet(tid, <<0, {}>>)
 
 TNext ==
     /\ l <= NEv
     /\ LET e == Ev
+           half == ~poison /\ HalfUpdated(e)
            D2 == DAfter(e)
-           ta == TaintAfter(e, D2)
-           new == AllViol(e, D2, ta)
+           ta == IF poison \/ half THEN {} ELSE TaintAfter(e, D2)
+           new == IF poison THEN {}
+                  ELSE IF half THEN {"KF:C11.relative-unbindable-midway"}
+                  ELSE AllViol(e, D2, ta)
            known == {v[1] : v \in viol} IN
        /\ viol' = viol \cup {<<x, l>> : x \in new \ known}
-       /\ D' = D2
+       /\ D' = IF poison \/ half THEN D ELSE D2
        /\ data' = DataL(e)
        /\ taint' = ta
+       /\ poison' = (poison \/ half)
        /\ pdefs' = IF "defs" \in DOMAIN e.post THEN e.post.defs ELSE pdefs
     /\ l' = l + 1
     /\ tid' = tid
